@@ -33,7 +33,8 @@ type FuncResult struct {
 func (P *Program) newGen(fn *ssa.Function, ct *Contract, tier string) *Gen {
 	return &Gen{P: P, fn: fn, ct: ct, key: funcKey(fn), tier: tier,
 		declared: map[string]bool{}, heapSort: map[string]string{}, vals: map[ssa.Value]Val{},
-		oblCount: map[string]int{}, callees: map[string]bool{}, siteOrd: map[string]int{}}
+		oblCount: map[string]int{}, callees: map[string]bool{}, siteOrd: map[string]int{},
+		verAlloc: map[string]string{}, tagAlloc: map[string]string{}}
 }
 
 func (P *Program) generate(fn *ssa.Function, ct *Contract, tier string) (g *Gen, unsup string) {
@@ -149,7 +150,12 @@ func (P *Program) discharge(g *Gen, timeoutS int, confirm bool) {
 		if ob.Kind != "cover" {
 			continue
 		}
-		scr := base + "(check-sat)\n"
+		// some return must be reachable under all the assumptions made on the way
+		coverGoal := ""
+		if len(g.retReach) > 0 {
+			coverGoal = "(assert " + or(g.retReach...) + ")\n"
+		}
+		scr := base + coverGoal + "(check-sat)\n"
 		h := hashStr("cover\n" + scr)
 		if ce, ok := cacheGet(h); ok {
 			ob.Status, ob.Solver, ob.Secs = ce.Status, ce.Solver+" (cached)", ce.Secs
@@ -157,15 +163,26 @@ func (P *Program) discharge(g *Gen, timeoutS int, confirm bool) {
 		}
 		f := filepath.Join(dir, "cover.smt2")
 		_ = writeFile(f, scr)
-		t := 3
-		r := runSolver(solvers[0], f, t)
+		r := runSolver(solvers[0], f, 1)
 		switch r.Status {
 		case "unsat":
 			ob.Status = "vacuous"
 		case "sat":
 			ob.Status = "covered"
 		default:
-			ob.Status = "cover-unknown"
+			// the quantified axioms keep the solver from answering sat; without
+			// them a model of the preconditions is found quickly
+			lf := filepath.Join(dir, "cover.lite.smt2")
+			_ = writeFile(lf, liteScript(g)+coverGoal+"(check-sat)\n")
+			lr := runSolver(solvers[0], lf, 2)
+			switch lr.Status {
+			case "sat":
+				ob.Status = "covered"
+			case "unsat":
+				ob.Status = "vacuous"
+			default:
+				ob.Status = "cover-unknown"
+			}
 		}
 		ob.Solver, ob.Secs, ob.Output = r.Solver, r.Secs, r.Output
 		cachePut(h, cacheEntry{ob.Status, r.Solver, r.Secs})
